@@ -298,7 +298,12 @@ def gen_cell_hash(fn):
     if len(loop) != 1 or src(loop[0].iter).replace(" ", "") != "self._values.items()":
         bail(fn, "Cell.__hash__: value-hash loop not recognised")
     ltxt = src(loop[0]).replace(" ", "").replace("\n", "")
-    if "hash((k,tuple(v)))" not in ltxt or "hash((k,v))" not in ltxt or "value_hashes.append(item_hash)" not in ltxt:
+    # arrays are hashed by their elements (a 0-d array like the scalar it equals), everything else as it is
+    body_ok = (ltxt.replace("\"", "'") ==
+               "fork,vinself._values.items():ifisinstance(v,np.ndarray)andv.ndim==0:item_hash=hash((k,v.item()))"
+               "elifisinstance(v,np.ndarray):item_hash=hash((k,tuple(v.ravel())))else:item_hash=hash((k,v))"
+               "value_hashes.append(item_hash)")
+    if not body_ok:
         bail(loop[0], "Cell.__hash__: value-hash loop body not recognised")
     tagmap = {"<basis-class>": "HBasis", "<class-name>": "HClassName", "_period_start": "HPs", "_period_end": "HPe",
               "_evaluation_date": "HEv", "_metadata": "HMeta", "<sorted-value-hashes>": "HValues",
